@@ -240,35 +240,3 @@ func ProbeEntryJump() bool {
 	}
 	return false
 }
-
-// RomsizeWithData: generated sources may combine a `romsize` option with a ROM data section.  Set by the harness from
-// ProbeRomsizeData: on a tree where that combination assembles the program with one ROM address width and declares
-// another (see docs/C16.md) the combination is left out, so that the defect is reported once, by name, not as noise.
-var RomsizeWithData = false
-
-// ProbeRomsizeData assembles a fixed source with `romsize:6`, a 4-word data section and a `jz` to address 5, and says
-// whether the jump target reads 5 under the ROM address width the emitted machine declares.
-func ProbeRomsizeData() bool {
-	src := "%section main .romtext iomode:async\n\tentry _start\n_start:\n\trset r1, 200\n\tinc r0\n\tjz r0, last\n\tmov o0, r0\n\tinc r1\nlast:\n\tj _start\n%endsection\n" +
-		"%section consts .romdata\n\ttab db 0x01, 0x02, 0x03, 0x04\n%endsection\n" +
-		"%meta cpdef cpu romcode: main, romdata: consts, romsize:6\n%meta ioatt bmo0 cp: cpu, index:0, type:output\n%meta ioatt bmo0 cp: bm, index:0, type:output\n%meta bmdef global registersize:8\n"
-	bm, _, err := Assemble(src, Options{DisableDynamic: true})
-	if err != nil || len(bm.Domains) != 1 || len(bm.Domains[0].Program.Slocs) < 3 {
-		return false
-	}
-	d := bm.Domains[0]
-	opbits := 1
-	for (1 << uint(opbits)) < len(d.Op) {
-		opbits++
-	}
-	w := d.Program.Slocs[2]
-	lo, hi := opbits+int(d.R), opbits+int(d.R)+int(d.O)
-	if hi > len(w) {
-		return false
-	}
-	v := 0
-	for _, ch := range w[lo:hi] {
-		v = v*2 + int(ch-'0')
-	}
-	return v == 5
-}
